@@ -635,3 +635,34 @@ B('c16i_codec_mixin_in_sibling_module_own_error', ['C16'], 'R16.b',
   *_codec_moved(dep_import='\n\nclass UnquoteError(ValueError):\n    pass\n'))
 B('c16i_codec_mixin_in_sibling_module_charset', ['C16'], 'R16.b',
   *_codec_moved(codec=_CODEC.replace("value.decode('utf8')", "value.decode('utf-16')")))
+
+# ---------------------------------------------------------------- R16.g: the expiry save_cookie is told to sign is the cookie's own entry
+_EXP_LINE = "            save_cookie_kwargs['expires'] = cookie['_expires']\n"
+B('c16i_signed_expiry_recomputed', ['C16'], 'R16.g',
+  (CK, _SAVE, "        if self.expiry != NEVER and self.expiry != SESSION:\n            save_cookie_kwargs['expires'] = time.time() + self.expiry\n"
+              "        cookie.save_cookie(response, **save_cookie_kwargs)\n"))
+B('c16i_signed_expiry_keyword_recomputed', ['C16'], 'R16.g',
+  (CK, _KWARGS, ''),
+  (CK, _SAVE, "        lifetime = self.expiry if self.expiry not in (NEVER, SESSION) else None\n"
+              "        cookie.save_cookie(response, key=self.cookie_name, domain=self.domain, path=self.path, secure=self.secure,\n"
+              "                           httponly=self.http_only, session_expires=lifetime and time.time() + lifetime)\n"))
+B('c16i_signed_expiry_read_before_endpoint', ['C16'], 'R16.g',
+  (CK, _NEXT, "        until = cookie.get('_expires')\n" + _NEXT),
+  (CK, _SAVE, "        if until is not None:\n            save_cookie_kwargs['expires'] = until\n        cookie.save_cookie(response, **save_cookie_kwargs)\n"))
+B('c16i_signed_expiry_options_before_endpoint', ['C16'], 'R16.g',
+  (CK, _KWARGS, ''),
+  (CK, _NEXT, _KWARGS + "        if '_expires' in cookie:\n" + _EXP_LINE + _NEXT),
+  (CK, _SAVE, "        cookie.save_cookie(response, **save_cookie_kwargs)\n"))
+T('c16i_signed_expiry_fallback_when_absent', ['C16'],
+  (CK, _SAVE, "        if '_expires' in cookie:\n" + _EXP_LINE +
+              "        elif self.expiry != NEVER and self.expiry != SESSION:\n            save_cookie_kwargs['expires'] = time.time() + self.expiry\n"
+              "        cookie.save_cookie(response, **save_cookie_kwargs)\n"))
+T('c16i_signed_expiry_get_or_none', ['C16'],
+  (CK, _SAVE, "        save_cookie_kwargs['expires'] = cookie.get('_expires') or None\n        cookie.save_cookie(response, **save_cookie_kwargs)\n"))
+T('c16i_signed_expiry_stamp_rebinds_local', ['C16'], _SENT,
+  (CK, _STAMP, "        expires = cookie.get('_expires', _MISSING)\n        if self.expiry != NEVER and self.expiry != SESSION and expires is _MISSING:\n"
+               "            cookie['_expires'] = time.time() + self.expiry\n            expires = cookie['_expires']\n"),
+  (CK, _SAVE, _SAVE_SENT))
+B('c16i_signed_expiry_sentinel_unchecked', ['C16'], 'R16.g', _SENT,
+  (CK, _STAMP, _STAMP_SENT),
+  (CK, _SAVE, "        save_cookie_kwargs['expires'] = expires\n        cookie.save_cookie(response, **save_cookie_kwargs)\n"))
